@@ -34,7 +34,7 @@ def regenerate(o):
     if "facts" in _cache:
         return _cache["facts"]
     os.makedirs(W, exist_ok=True)
-    tool = os.path.join(core.BIN, "lockfacts")
+    tool = core._own(os.path.join(core.BIN, "lockfacts_%d" % os.getpid()))
     os.makedirs(core.BIN, exist_ok=True)
     with core.Lock("gobuild"):
         p = core.sh(["go", "build", "-o", tool, "."], cwd=TOOL_SRC, check=False, timeout=600)
